@@ -21,6 +21,7 @@ from __future__ import annotations
 import contextlib
 import itertools
 import math
+import os
 
 import numpy as np
 import pandas as pd
@@ -481,6 +482,24 @@ def check_constant_reuse(nf, seq, ptype):
                 problems.append((f"constant.estimate[object already used]|column of a feature holds another feature's value|{later}" if step else
                                  f"constant.estimate|value mismatch|{ptype}", f"individual {i} after tables {seq[:step + 1]}", [ref[n] for n in names], arr.tolist()))
                 break
+        # the same constants handed over in ANOTHER key order (an IndividualParameters object built by hand, or obtained from a
+        # table whose columns were ordered differently): a constant belongs to the feature it is named after
+        if len(names) >= 2 and not problems:
+            from leaspy.io.outputs import IndividualParameters as _IP
+
+            ip_rev = _IP()
+            for i in ids:
+                ip_rev.add_individual_parameters(i, {n: ip[i][n] for n in reversed(names)})
+            try:
+                est_rev = model.estimate({i: list(request) for i in ids}, ip_rev)
+            except Exception as e:  # noqa: BLE001
+                problems.append((f"constant.estimate|{type(e).__name__}|individual parameters listed in another order than the model's features", f"{type(e).__name__}: {e}", None, None))
+                return "reuse:exception", problems
+            for i in ids:
+                if not (np.asarray(est_rev[i]).shape == np.asarray(est[i]).shape and np.array_equal(np.asarray(est_rev[i]), np.asarray(est[i]), equal_nan=True)):
+                    problems.append(("constant.estimate|column of a feature holds another feature's value|individual parameters listed in another order than the model's features",
+                                     f"individual {i} after tables {seq[:step + 1]}", np.asarray(est[i]).tolist(), np.asarray(est_rev[i]).tolist()))
+                    break
     return "reuse:" + ">".join("".join(FEATS[j] for j in cols) for cols in seq[-2:]), problems
 
 
@@ -558,6 +577,9 @@ LME_CONFIGS = [
 # (warning) as not honouring force_independent_random_effects: the fitted covariance may then be full, and the personalised
 # random effects must still be the conditional means given THAT fitted covariance.  Run on the first cohorts only (slower).
 LME_CONFIGS_METHOD = [
+    # the fitted model saved and loaded back before it personalises / estimates (every option must come back with it)
+    {"slope": False, "indep": False, "reload": True},
+    {"slope": True, "indep": False, "reload": True},
     {"slope": True, "indep": True, "method": ["powell"]},
     {"slope": True, "indep": False, "method": ["powell"]},
     {"slope": False, "indep": False, "method": ["nm"]},
@@ -611,6 +633,8 @@ def check_lme(k, cfg):
         tag += "+independent"
     if method:
         tag += "+method=" + ",".join(method)
+    if cfg.get("reload"):
+        tag += ", model saved and loaded back"
     fit_kw = {"method": list(method)} if method else {}
     train, everyone = lme_cohort(k)
     problems = []
@@ -634,6 +658,19 @@ def check_lme(k, cfg):
         if len(rec) != 1:
             raise RuntimeError(f"recording seam saw {len(rec)} MixedLM.fit calls (expected exactly 1)")
         sm_model, res = rec[0]
+    if cfg.get("reload"):
+        import tempfile
+
+        from leaspy.models import BaseModel
+
+        with tempfile.TemporaryDirectory(dir="/var/tmp") as tmp:
+            path = os.path.join(tmp, "lme.json")
+            try:
+                model.save(path)
+                model = BaseModel.load(path)
+            except Exception as e:  # noqa: BLE001
+                problems.append((f"lme.save+load|{type(e).__name__}|{tag}", f"{type(e).__name__}: {e}", None, None))
+                return None, False, problems, info
     P = model.parameters
     mu, sd = float(P["ages_mean"]), float(P["ages_std"])
     beta = np.asarray(res.fe_params, dtype=float)
@@ -819,9 +856,9 @@ def run_lme(shard, acc):
             acc.count("lme training individuals compared with statsmodels random_effects at <= 1e-5 relative", info.get("sm_tight", 0))
             acc.count("lme training individuals compared with a conditioning-widened tolerance", info.get("sm_loose", 0))
             if material:
-                acc.nontriv(f"L{k:011d}{int(cfg['slope'])}{int(cfg['indep'])}xx" + ("".join(cfg["method"]) if cfg.get("method") else ""))
+                acc.nontriv(f"L{k:011d}{int(cfg['slope'])}{int(cfg['indep'])}xx" + ("".join(cfg["method"]) if cfg.get("method") else "") + ("r" if cfg.get("reload") else ""))
             for sig, msg, exp, obs in problems:
-                acc.violation(sig, msg, {"part": "lme", "k": k, "slope": cfg["slope"], "indep": cfg["indep"], "method": cfg.get("method"),
+                acc.violation(sig, msg, {"part": "lme", "k": k, "slope": cfg["slope"], "indep": cfg["indep"], "method": cfg.get("method"), "reload": cfg.get("reload", False),
                                          "training_rows_info": lme_cohort(k)[0]}, expected=exp, observed=obs)
             if k % 10 == 1 and c_i == 1:
                 acc.sample({"part": "lme", "k": k, "config": cfg, "training_rows": lme_cohort(k)[0][:6], "info": info, "outcome": outcome})
@@ -949,7 +986,7 @@ def replay(case):
         for sig, msg, exp, obs in problems:
             out.append({"signature": sig, "message": f"{msg} expected={exp} observed={obs}"})
     elif case["part"] == "lme":
-        _, _, problems, _ = check_lme(case["k"], {"slope": case["slope"], "indep": case["indep"], **({"method": case["method"]} if case.get("method") else {})})
+        _, _, problems, _ = check_lme(case["k"], {"slope": case["slope"], "indep": case["indep"], **({"method": case["method"]} if case.get("method") else {}), **({"reload": True} if case.get("reload") else {})})
         for sig, msg, exp, obs in problems:
             out.append({"signature": sig, "message": f"{msg} expected={exp} observed={obs}"})
     else:
